@@ -49,7 +49,7 @@ func probeBadgerResetWrite(r *vk.Run) {
 			err = fmt.Errorf("timeout after 60s (hang)")
 		}
 		out := buf.String()
-		if err == nil && strings.Contains(out, "PROBE-SURVIVED") {
+		if err == nil && strings.Contains(out, "PROBE-SURVIVED") && !strings.Contains(out, "panic:") {
 			r.Note("badger Write-after-Reset probe: sub-process survived; case covered in-process")
 			return
 		}
@@ -79,6 +79,10 @@ func probeChild(which string) {
 		b.Reset()
 		b.Set([]byte("a"), []byte("22"))
 		b.Write()
+		// The panic is raised in a goroutine started by badgerBatch.Write whose deferred WaitGroup.Done
+		// releases this goroutine BEFORE the runtime has finished killing the process: wait, so that a
+		// dying process is never mistaken for a surviving one.
+		time.Sleep(3 * time.Second)
 		fmt.Printf("PROBE-SURVIVED value=%q\n", db.Get([]byte("a")))
 		db.Close()
 		os.Exit(0)
